@@ -80,6 +80,8 @@ type Config struct {
 	IOFor   func(i int) iface.IO
 	SortFor func(i int) iface.EntrySortFn
 	AC      func(replica int) accesscontroller.Interface
+	// Conc > 0: LogOptions.Concurrency of every replica (the library default is 16, more than any world here holds)
+	Conc uint
 }
 
 // SortFnOrNil exposes the configured ordering (nil = library default).
@@ -162,6 +164,9 @@ func NewWorld(cfg *Config) *World {
 		}
 		if cfg.AC != nil {
 			opts.AccessController = cfg.AC(i)
+		}
+		if cfg.Conc > 0 {
+			opts.Concurrency = cfg.Conc
 		}
 		ml := refmodel.NewLog(wr, "X")
 		if i < len(cfg.StartClock) && cfg.StartClock[i] > 0 {
